@@ -37,7 +37,7 @@ PROPS = {
                 preds=["HelpDocComplete (evaluated on the parsed real text)", "HelpDocOf equality", "three paths same text"]),
     "C19": dict(families=["modes", "wrapper", "complete-eq", "tree"], lens={"panic", "hang", "rest", "exits"}, fuzz=(16000, 800000), level="exploration",
                 preds=["NotStuck", "VariantDecreases (action property)", "ErrImpliesNilRest"]),
-    "C20": dict(families=["order", "complete", "complete-eq"], lens={"nondet", "err", "derr", "comps", "warn"}, rand=[("C20", 4000, 300000), ("C20c", 2000, 200000)],
+    "C20": dict(families=["order", "complete", "complete-eq", "shadow"], lens={"nondet", "err", "derr", "comps", "warn"}, rand=[("C20", 4000, 300000), ("C20c", 2000, 200000)],
                 repeat=6, twice=True, preds=["FixedRule"]),
     "C09": dict(families=["term", "conserve", "inherit", "deep-ro"], lens={"rest", "vals", "called"}, rand=("C09", 6000, 150000),
                 preds=["StopRoles", "PrefixAsUnordered", "NoStopAsUnordered", "Frozen (action property)"]),
@@ -98,6 +98,9 @@ CONSTANT TraceFile = "%(trace)s"
 POSTCONDITION AllConsumed
 CHECK_DEADLOCK FALSE
 """
+
+
+NOSPEC_FAMILIES = {"shadow"}
 
 
 def model_check(work, fam, famfile, maxlen, relational=True):
@@ -263,10 +266,13 @@ def check(prop, tier, seed, work, replay, t0):
             raise Broken("family %s was not generated" % fam)
         maxlen = 0   # the bound recorded in the family for this tier
         t1 = time.time()
-        gen, dist = model_check(work, fam, famfile, maxlen, relational=P.get("relational", True))
-        log("spec: family %s (argv bound %d): %d states, %d transitions, all properties hold (%.0fs)" % (fam, maxlen, dist, gen, time.time() - t1))
-        states += dist
-        transitions += gen
+        if fam in NOSPEC_FAMILIES:
+            log("family %s: definitions outside the specification; only run-to-run / process-to-process determinism is compared" % fam)
+        else:
+            gen, dist = model_check(work, fam, famfile, maxlen, relational=P.get("relational", True))
+            log("spec: family %s (argv bound %d): %d states, %d transitions, all properties hold (%.0fs)" % (fam, maxlen, dist, gen, time.time() - t1))
+            states += dist
+            transitions += gen
         for k in range(NSHARD):
             jobs[k][1].append(["enum", "-fam", famfile, "-L", str(maxlen), "-shard", str(k), "-of", str(NSHARD), "-idbase", str(fi * 50000000)])
     if P.get("fuzz"):
